@@ -28,5 +28,34 @@ k = j
 while k < len(s) and s[k] == '|':
     k = s.index('\n', k) + 1
 s = s[:j] + '\n'.join(rows) + '\n' + s[k:]
+# summary between the markers of §0.4
+first = {'input': 0, 'noinput': 0, 'missed': 0}
+pending = []
+props = set()
+for sid in ids:
+    mp = os.path.join(ROOT, 'seeded', sid, 'meta.json')
+    if not os.path.exists(mp):
+        continue
+    m = json.load(open(mp))
+    props.add(m['property'])
+    cb = m['check_result']['caught_by']
+    if 'MISSED' in cb:
+        first['missed'] += 1
+    elif re.search(r'before[^)]*no-failing-input-found|first run:[^;]*no-failing-input-found|before that: no-failing-input-found|'
+                   r'before: (tie|translator|correspondence|only)', cb):
+        first['noinput'] += 1
+    else:
+        first['input'] += 1
+    if 'being added' in cb or 'being wired' in cb or m['check_result'].get('exit') != 1:
+        pending.append(sid)
+summary = ('%d seeded changes over %d properties are stored. On the FIRST run of the then-current check %d were reported with a '
+           'concrete failing input (schedule, program or operation sequence as replay), %d were reported without one '
+           '(`no-failing-input-found`: only a tie / the translator / the correspondence broke) and %d was missed. After the '
+           'strengthening recorded per row, all are reported with a failing input%s.\n'
+           % (len(rows), len(props), first['input'], first['noinput'], first['missed'],
+              (' except ' + ', '.join(pending) + ' (in progress)') if pending else ''))
+b, e = '<!-- SEED-SUMMARY-BEGIN -->\n', '<!-- SEED-SUMMARY-END -->'
+if b in s and e in s:
+    s = s[:s.index(b) + len(b)] + summary + s[s.index(e):]
 open(p, 'w').write(s)
 print('%d seeded rows' % len(rows))
